@@ -608,6 +608,12 @@ def run_part(ctx):
         ctx.notes.append("C01 nonx86 stream skipped: " + note)
     else:
         ctx.evaluations += len(mc)
+        # model side: TextTapeMore.parse_quote_scalar_swar / split_at_scalar_plain (the theorems of Props/C01_more.v section 6)
+        mm = vlib.run_model([c.replace("tt.quote\t", "tt.quote8\t").replace("tt.split\t", "tt.split_plain\t") for c in mc])
+        for c, o, m in zip(mc, out, mm):
+            if o != m:
+                ctx.streams["nonx86"]["disagree"] += 1
+                ctx.disagreements.append(("nonx86", c, o, m))
         for c, o in zip(mc, out):
             kind, h = c.split("\t")
             d = unhex(h)
